@@ -1,4 +1,4 @@
-package suites
+package c15
 
 import (
 	"bufio"
